@@ -88,6 +88,17 @@ for fn in ('read_without_encryption', 'write_without_encryption'):
                        'len(cmd_data) < 6 or cmd_data[0] != 2 or cmd_data[5] <= 2'],
              ensures=[('post.rsp', 'len(result) >= 2 and len(result) <= 243')], raises={'IndexError': []},
              returns=Bytes(2, 243, mutable=True), max_paths=8000)
+# the same parsers over long block lists (the status flag of an error response names the position of the failing
+# block: any of the 15 positions a command may list must produce an octet): one service, every block list
+# element in the 2-byte format, any number of blocks
+for fn in ('read_without_encryption', 'write_without_encryption'):
+    contract(T3EMU + '.' + fn, 'C07', dict(self=EMU(), cmd_data=Bytes(0, 300, mutable=True)),
+             name='C07/tt3emu.%s[long-list]' % fn,
+             bounded='bounded: one service, at most 16 block list elements, all in the 2-byte format',
+             bounds=['len(cmd_data) >= 4 and cmd_data[0] == 1 and cmd_data[3] <= 16'] +
+                    ['len(cmd_data) <= %d or cmd_data[%d] >= 128' % (4 + 2 * k, 4 + 2 * k) for k in range(16)],
+             ensures=[('post.rsp', 'len(result) >= 2 and len(result) <= 259')], raises={'IndexError': []},
+             max_paths=8000)
 contract(T3EMU + '.process_command', 'C07', dict(self=EMU(), cmd=Bytes(0, 300, mutable=True)),
          name='C07/tt3emu.process_command',
          use=['C07/tt3emu.read_without_encryption', 'C07/tt3emu.write_without_encryption'],
